@@ -511,7 +511,7 @@ def _submit_resolved_task(task_dict: dict, executor_queue: queue.Queue):
         task_dict["args"], task_dict["kwargs"] = _update_futures_in_input(
             args=task_dict["args"], kwargs=task_dict["kwargs"]
         )
-    except Exception as input_exception:
+    except BaseException as input_exception:
         if task_dict["future"].set_running_or_notify_cancel():
             task_dict["future"].set_exception(input_exception)
     else:
@@ -662,7 +662,7 @@ def _execute_task(
     if f.set_running_or_notify_cancel():
         try:
             f.set_result(interface.send_and_receive_dict(input_dict=task_dict))
-        except Exception as thread_exception:
+        except BaseException as thread_exception:
             interface.shutdown(wait=True)
             future_queue.task_done()
             f.set_exception(exception=thread_exception)
@@ -716,7 +716,7 @@ def _execute_task_with_cache(
                 dump(file_name=file_name_tmp, data_dict=data_dict)
                 os.rename(file_name_tmp, file_name)
                 f.set_result(result)
-            except Exception as thread_exception:
+            except BaseException as thread_exception:
                 interface.shutdown(wait=True)
                 future_queue.task_done()
                 f.set_exception(exception=thread_exception)
